@@ -181,7 +181,12 @@ Returns:
 */
 func (ego *list) isEqual(another any) bool {
 	list, ok := another.(*list)
-	if !ok || ego.Ego().Count() != list.Count() {
+	if !ok {
+		// Derived structure (the list is embedded in it), the comparison is made from its side
+		derived, ok := another.(List)
+		return ok && derived.isEqual(ego)
+	}
+	if ego.Ego().Count() != list.Count() {
 		return false
 	}
 	for i := range ego.val {
